@@ -89,13 +89,14 @@ type Project struct {
 }
 
 type TSConfig struct {
-	JSX         int // 0 absent,1 react,2 react-jsx,3 preserve
-	Paths       bool
-	UseDefine   int // 0 absent 1 true 2 false
+	JSX          int // 0 absent,1 react,2 react-jsx,3 preserve
+	Paths        bool
+	UseDefine    int // 0 absent 1 true 2 false
 	AlwaysStrict int
-	Target      int
-	Version     int
-	Broken      bool
+	Target       int
+	Version      int
+	Broken       bool
+	Fallback     bool // "paths" lists an override directory (which may not exist) before src
 }
 
 // import styles, weighted: dynamic imports and named imports are the interesting ones
@@ -251,7 +252,7 @@ func GenProject(g G, root string) *Project {
 		p.PkgType = []string{"", "module", "commonjs"}[g.n(3)]
 	}
 	if g.chance(50) {
-		p.TS = &TSConfig{JSX: g.n(4), Paths: true, UseDefine: g.n(3), AlwaysStrict: g.n(3), Target: g.n(3), Version: 1}
+		p.TS = &TSConfig{JSX: g.n(4), Paths: true, UseDefine: g.n(3), AlwaysStrict: g.n(3), Target: g.n(3), Version: 1, Fallback: g.n(2) == 1}
 	}
 	return p
 }
@@ -545,7 +546,9 @@ func (t *TSConfig) render() string {
 	case 3:
 		opts = append(opts, `"jsx": "preserve"`)
 	}
-	if t.Paths {
+	if t.Paths && t.Fallback {
+		opts = append(opts, `"baseUrl": ".", "paths": {"@src/*": ["override/*", "src/*"]}`)
+	} else if t.Paths {
 		opts = append(opts, `"baseUrl": ".", "paths": {"@src/*": ["src/*"]}`)
 	}
 	switch t.UseDefine {
